@@ -1,32 +1,48 @@
 """T-effects: Python `ast` -> effect skeletons in the language of coq/theories/Model/Effects.v.
 
 `gen(repo)` reads every class with `@reducer_method` / `@view_method` methods under
-simaple/simulate/component, the traits, the entities and every helper they call (by name),
-and emits `Effects_skeletons.v`: one skeleton per function, one summary per callee, the
-lists `all_reducers`, `all_views`, `all_summaries`.
+simaple/simulate/component (common, specific, skill.py), the traits, the entities and every helper
+they call, and emits `Effects_skeletons.v`: one skeleton per function, one summary per callee (and
+per return class), the lists `all_reducers`, `all_views`, `all_summaries`, and the unit examples
+`bad_examples` / `good_examples` (EXAMPLES below, translated by the same code).
 
-What is TRUSTED here (and validated at run time by the monitor, tools/lib/h_effects.py): the
-classification of Python statements into effects.  The rules, all conservative:
+What is TRUSTED here (validated at run time by tools/lib/h_effects.py and by the unit examples):
+the classification of Python statements into effects.  The rules, all meant to over-approximate:
 
-  * var 0 = "the globals" (never fresh); parameters 1..n; a parameter annotated with an
-    immutable type (float/int/str/bool/None) is re-bound to a fresh value at entry;
-  * `x = y` alias; `e.attr`, `e[k]`, iteration: SFrom [e] -- except attributes that are declared
-    with an immutable annotation in EVERY class that declares them (`time_left: float`,
-    `Tag.DAMAGE = "..."`): immutable values are indistinguishable from fresh copies;
-  * literals, comprehensions, constructors `C(a, b)`, arithmetic, concatenation, slices,
-    shallow copies (`model_copy()`, `list(x)`): SNew [parts]; `deepcopy()`,
-    `model_copy(deep=True)`, `model_dump()`: SNew [];
+  * var 0 = "the globals" (never fresh); parameters 1..n; a parameter annotated with an immutable
+    type (float/int/str/bool/None) is re-bound to a fresh value at entry; a parameter that is
+    assigned in the body is copied into a local first (parameters are never re-bound);
+  * `x = y` alias; `e.attr`, `e[k]`, iteration: SFrom [e] -- except attributes declared with an
+    immutable annotation (in the static class of `e` when it is known, else in EVERY class that
+    declares that name; `Tag.DAMAGE = "..."` counts): immutable values are indistinguishable from
+    fresh copies.  Static classes come from annotations (parameters, fields, TypeVar bounds,
+    return types), which are trusted to be truthful;
+  * `v.f` for a local `v` and a field name `f` that is NEVER the target of an assignment anywhere
+    in the analysed files (and no setattr/__dict__ is used): read once, when `v` is bound -- the
+    same object every time;
+  * literals, comprehensions, constructors `C(a, b)`, arithmetic on unknown operands, concatenation,
+    slices, shallow copies (`model_copy()`, `list(x)`): SNew [parts]; `deepcopy()`,
+    `model_copy(deep=True)`, `model_dump()`, arithmetic on immutable values: SNew [];
   * `x.attr = y`, `x[k] = y`, `x.append(y)`: Store x y (on `self` of a component/trait: WriteSelf);
-    `x += y`: either an in-place Store or a re-binding;
-  * a call `recv.m(args)` / `f(args)` is resolved BY NAME AND ARITY to every analysed definition
-    of that name (join of their summaries; receiver = parameter 0), joined with the built-in
-    meaning of that method name if it has one; properties are calls; generators mutate at every
-    iteration;  an unknown method mutates its receiver and arguments;  an unknown function, or
-    anything from random/time/os/..., is Impure;
+    `x += y`: `__iadd__` of the static class, else an in-place Store or a re-binding;
+  * a call `recv.m(args)` / `f(args)` is resolved BY NAME AND ARITY to the analysed definitions of
+    that name -- narrowed to the family (ancestors, descendants; all component-like classes for a
+    component/trait) of the receiver's static class when it is known -- joined with the built-in
+    meaning of that method name if it has one; Protocol stubs and abstract methods are not
+    definitions; properties are calls; generators act at every iteration; a name-recursive call
+    mutates its arguments and returns something reachable from them or the globals; an unknown
+    method mutates its receiver and arguments; an unknown function, a method of an object imported
+    from outside simaple, or anything from random/time/os/... is Impure;
+  * a callee is summarised by roles of its parameters (deeply mutated / modified at top level /
+    stored / returned), inferred here with the Python mirror of the checker and JUSTIFIED in Coq;
+  * returns are classed: class 1 = the returned events are `[<provider>.rejected()]` (or a variable
+    known to hold such a list); at `a, b = f(..)` and `return f(..)` the analysis follows the two
+    classes of the callee separately, and `is_rejected(b)` is decided on the class-1 path (the two
+    source facts this rests on are re-verified syntactically: Translator.verify_reject_facts);
   * `break`/`continue`: the rest of the loop body is skipped (the loop rule allows any number of
     iterations); `raise`: Return []; `yield v`: "may return v here".
-  Unsupported syntax (try/with/lambda/nested def/global/del...) in a reachable function is a
-  translator error: fail closed.
+  Unsupported syntax (try/with/lambda/nested def/global/del/unknown decorator...) in a reachable
+  function is a translator error: that function becomes a single Impure step (fail closed).
 """
 from __future__ import annotations
 
@@ -49,11 +65,12 @@ BINOP_DUNDER = {ast.Add: "add", ast.Sub: "sub", ast.Mult: "mul", ast.Div: "trued
 
 # built-in functions: name -> kind
 BI_FRESH = {"int", "float", "len", "abs", "round", "any", "all", "isinstance", "issubclass", "bool", "str", "range", "repr",
-            "hash", "divmod", "pow", "ord", "chr", "format", "callable", "id", "type", "hasattr"}
+            "divmod", "pow", "ord", "chr", "format", "callable", "hasattr"}
+BI_GLOBAL = {"type"}          # returns a shared, pre-existing object
 BI_FROM = {"min", "max", "next", "iter", "getattr", "cast"}
 BI_NEW = {"list", "tuple", "set", "frozenset", "dict", "sorted", "reversed", "enumerate", "zip", "sum", "map", "filter"}
 BI_IMPURE = {"print", "open", "input", "exec", "eval", "compile", "globals", "locals", "vars", "setattr", "delattr",
-             "__import__", "breakpoint"}
+             "__import__", "breakpoint", "id", "hash", "object"}
 
 # built-in / pydantic methods by name: kind
 M_FRESH = {"model_dump", "model_dump_json", "dict", "json", "format", "join", "replace", "startswith", "endswith", "split",
@@ -174,6 +191,8 @@ class Source:
         self.attr_decl = {}      # attr -> [bool is_prim]
         self.class_fields = {}   # class -> {attr: annotation}
         self.typevars = {}       # TypeVar name -> bound class name
+        self.assigned_fields = set()   # attribute names that are the target of an assignment somewhere
+        self.reflection = False        # setattr / __dict__ / __setattr__ seen: no field is known to be stable
         self.fns = []
         self.texts = {}
         for p in self.files:
@@ -185,6 +204,13 @@ class Source:
         self.texts[mod] = text
         tree = ast.parse(text)
         imports, globs = {}, set()
+        for n in ast.walk(tree):
+            if isinstance(n, ast.Attribute) and isinstance(n.ctx, (ast.Store, ast.Del)):
+                inits = False
+                self.assigned_fields.add(n.attr)
+            if (isinstance(n, ast.Name) and n.id in ("setattr", "delattr", "__setattr__")) or \
+                    (isinstance(n, ast.Attribute) and n.attr in ("__dict__", "__setattr__", "__delattr__")):
+                self.reflection = True
         for n in tree.body:
             if isinstance(n, ast.Import):
                 for a in n.names:
@@ -428,7 +454,7 @@ def any_ret(rs, s):
     return True
 
 
-def ret_pinned(m):
+def ret_deep(m):
     return lambda rs, s: s is DEAD or all(x in s[0] for x in m)
 
 
@@ -453,18 +479,44 @@ def safe(skel, tally=None):
         return False, "%s  [%s]" % (r.why, show_stmt(r.stmt))
 
 
-def check_from(retok, pinned, fresh, skel):
+def check_from(retok, pinned, deep, shallow, skel, tally=None):
     try:
-        Checker(retok, pinned).checks(skel, (tuple(fresh), tuple(fresh), ()))
+        Checker(retok, pinned, tally).checks(skel, (tuple(deep), tuple(deep) + tuple(shallow), ()))
         return True
     except Reject:
         return False
 
 
-def justified(skel, mut, rets):
-    if not check_from(ret_pinned(mut), mut, mut, skel):
-        return False
-    return all(r is None or check_from(ret_leaf(mut, k), mut, list(mut) + list(r), skel) for k, r in enumerate(rets))
+def effects_ok(skel, m, t):
+    return check_from(ret_deep(m), list(m) + list(t), m, t, skel)
+
+
+def sources_ok(skel, m, t, j):
+    return check_from(ret_deep(list(m) + list(t)), list(m) + list(t), list(m) + list(t) + list(j), [], skel)
+
+
+def leaf_ok(skel, m, t, k, r):
+    return check_from(ret_leaf(m, k), list(m) + list(t), list(m) + list(r), t, skel)
+
+
+def justified(skel, sm_mut, sm_top, sm_src, rets):
+    return effects_ok(skel, sm_mut, sm_top) and sources_ok(skel, sm_mut, sm_top, sm_src) and \
+        all(r is None or leaf_ok(skel, sm_mut, sm_top, k, r) for k, r in enumerate(rets))
+
+
+def variant(skel, tag):
+    """the skeleton in which the returns of the other classes claim nothing"""
+    out = []
+    for st in skel:
+        if st[0] == "Return":
+            out.append(st if (st[2] if len(st) > 2 else 0) == tag else ("Return", [], st[2] if len(st) > 2 else 0))
+        elif st[0] == "If":
+            out.append(("If", variant(st[1], tag), variant(st[2], tag)))
+        elif st[0] == "Loop":
+            out.append(("Loop", variant(st[1], tag)))
+        else:
+            out.append(st)
+    return out
 
 
 def show_stmt(st):
@@ -507,8 +559,68 @@ def n_leaves(sh):
 
 
 # ============================================================================ translation of one function
+class CallRes:
+    """A desugared call: its effects (re-emitted at every iteration for a generator) and, per return class of the
+    callee (0 = any, 1 = certainly rejected), where each returned leaf may come from."""
+
+    def __init__(self, t, direct=None):
+        self.t, self.direct = t, direct
+        self.results = []      # (shape, {tag: [sources of leaf k | None]})
+        self.mut, self.stores = [], []
+        self.gen = False
+        self.alts = {0}
+
+    def effects(self):
+        t = self.t
+        mut = list(dict.fromkeys(self.mut))
+        if mut:
+            t.emit(("Mut", mut))
+        for tv, sv, deep in dict.fromkeys(self.stores):
+            if deep:       # somewhere inside tv
+                inner = t.new()
+                t.emit(("Bind", inner, ("From", [tv])))
+                tv = inner
+            if sv is None:
+                sv = t.new()
+                t.emit(("Bind", sv, ("New", [])))
+            t.emit(("Store", tv, sv))
+
+    def finish(self, tags=None):
+        t = self.t
+        if self.direct is not None:
+            return self.direct
+        rs = [(sh, by[k]) for sh, by in self.results for k in by if tags is None or k in tags]
+        sh = None
+        for s_, _ in rs:
+            sh = join_shape(sh, s_)
+        nl = n_leaves(sh)
+        srcs = [[] for _ in range(nl)]
+        unknown = [False] * nl
+        for s_, leaves in rs:
+            if t.same_layout(s_, sh):
+                pairs = [(k, r) for k, r in enumerate(leaves)]
+            else:   # collapsed: every leaf of this result may flow into every leaf
+                pairs = [(k, r) for k in range(nl) for r in leaves]
+            for k, r in pairs:
+                if r is None:
+                    unknown[k] = True
+                else:
+                    srcs[k] += r
+        touched = list(dict.fromkeys(self.mut + [tv for tv, _, _ in self.stores]))
+        leaves, prev = [], []
+        if nl == 1 and not touched and not srcs[0] and not unknown[0]:
+            leaves = [("s", ("New", []))]
+        else:
+            for k in range(nl):
+                x = t.new()
+                t.emit(("Bind", x, ("From", list(dict.fromkeys(touched + srcs[k] + prev + ([G] if unknown[k] else []))))))
+                leaves.append(("v", x))
+                prev.append(x)
+        return t.build(sh, iter(leaves))
+
+
 class FnTr:
-    def __init__(self, tr, fn: Fn, wrapper_of: Fn | None = None, body=None):
+    def __init__(self, tr, fn: Fn, wrapper_of=None, body=None):
         self.tr, self.src, self.fn = tr, tr.src, fn
         self.names = {}
         self.nvars = 1
@@ -518,6 +630,9 @@ class FnTr:
         self.body = body if body is not None else fn.node.body
         self.mod = fn.mod          # module in which global names are resolved
         self.local_imports = {}
+        self.rej = set()           # names of event lists known to contain a rejection
+        self.paths = {}            # (name, field) -> variable holding `name.field` (fields that are never assigned)
+        self.path_fields = {}      # name -> fields read through it
 
     # ---- light static types (annotations are trusted to be truthful; validated by the runtime monitor)
     def prepass_types(self):
@@ -684,16 +799,19 @@ class FnTr:
         return self.blocks.pop()
 
     # ---- entry
-    def run(self):
+    def run(self, declare=True):
         fn = self.fn
-        params = fn.all_params() + ([fn.vararg] if fn.vararg else []) + ([fn.kwarg] if fn.kwarg else [])
-        for p in params:
-            self.var(p)
+        if declare:
+            params = fn.all_params() + ([fn.vararg] if fn.vararg else []) + ([fn.kwarg] if fn.kwarg else [])
+            for p in params:
+                self.var(p)
         self.param_vars = [self.names[p] for p in fn.all_params()]
         assigned = set()
         for n in walk_fn(ast.Module(body=self.body, type_ignores=[])):
             if isinstance(n, ast.Name) and isinstance(n.ctx, (ast.Store, ast.Del)):
                 assigned.add(n.id)
+        self.prepass_types()
+        self.prepass_paths()
         for p in fn.all_params():
             if is_prim_ann(fn.ann.get(p)):
                 v = self.new()
@@ -704,11 +822,11 @@ class FnTr:
                 v = self.new()
                 self.emit(("Bind", v, ("Alias", self.names[p])))
                 self.names[p] = v
-        self.prepass_types()
+            self.refresh_paths(p)
         self.stmts(self.body)
         # falling off the end
         if fn.is_gen:
-            self.emit(("Return", []))
+            self.emit(("Return", [], 0))
         elif not ends(self.body):
             self.ret(self.fresh())
         skel = self.blocks[0]
@@ -719,10 +837,48 @@ class FnTr:
             sh = ("L", sh if sh is not None else "leaf")
         self.finish_returns(skel, sh if not fn.is_gen else sh[1])
         fn.skel, fn.shape, fn.nvars = skel, sh, self.nvars
+        fn.tags = sorted({ph["tag"] for ph in self.returns} | {0})
         return skel
 
-    def ret(self, val):
-        ph = {"val": val}
+    def prepass_paths(self):
+        src = self.src
+        if src.reflection:
+            return
+        nodes = list(walk_fn(ast.Module(body=self.body, type_ignores=[])))
+        called = {id(n.func) for n in nodes if isinstance(n, ast.Call)}
+        for n in nodes:
+            if isinstance(n, ast.Attribute) and isinstance(n.ctx, ast.Load) and isinstance(n.value, ast.Name) and id(n) not in called:
+                v, f = n.value.id, n.attr
+                if f in src.assigned_fields or f in src.properties or f in src.methods or f.startswith("__"):
+                    continue
+                t = self.vtypes.get(v)
+                decl = src.field_ann(t, f) if isinstance(t, str) and t != "PRIM" else None
+                if (decl is not None and is_prim_ann(decl)) or (decl is None and src.prim_attr(f) and not isinstance(t, str)):
+                    continue      # an immutable value: nothing to cache
+                fs = self.path_fields.setdefault(v, [])
+                if f not in fs:
+                    fs.append(f)
+
+    def refresh_paths(self, name):
+        """`name` has just been bound: `name.f` (f never assigned anywhere in the analysed code) is read once, here"""
+        if name not in self.names:
+            return
+        for f in self.path_fields.get(name, ()):
+            key = (name, f)
+            if key not in self.paths:
+                self.paths[key] = self.new()
+            self.emit(("Bind", self.paths[key], ("From", [self.names[name]])))
+            self.fn.stats["cached_field_reads"] += 1
+
+    def bind_name(self, name, src):
+        x = self.var(name)
+        self.emit(("Bind", x, src))
+        self.refresh_paths(name)
+        self.rej.discard(name)
+        return x
+
+    def ret(self, val, tag=0):
+        ph = {"val": val, "tag": tag}
         self.returns.append(ph)
         self.emit(("ReturnPH", ph))
 
@@ -734,7 +890,7 @@ class FnTr:
                 self.blocks.append([])
                 leaves = self.coerce(st[1]["val"], sh)
                 pre = self.blocks.pop()
-                block[i:i + 1] = pre + [("Return", leaves)]
+                block[i:i + 1] = pre + [("Return", leaves, st[1]["tag"])]
                 i += len(pre) + 1
                 continue
             if st[0] == "If":
@@ -771,13 +927,90 @@ class FnTr:
             if isinstance(st, (ast.Break, ast.Continue)):
                 return          # the rest of the loop body is skipped
             if isinstance(st, ast.If) and self.has_jump(st):
-                self.effects_of_test(st.test)
                 rest = body[i + 1:]
+                rt = self.rejected_test(st.test)
+                if rt is not None:
+                    self.stmts((st.body if rt else st.orelse) + rest)
+                    return
+                self.effects_of_test(st.test)
+                saved = set(self.rej)
                 a = self.block(lambda: self.stmts(st.body + rest))
+                self.rej = set(saved)
                 b = self.block(lambda: self.stmts(st.orelse + rest))
+                self.rej = saved
                 self.emit(("If", a, b))
                 return
+            c = self.split_call(st)
+            if c is not None:
+                if self.split_stmt(st, c, body[i + 1:]):
+                    return
+                continue
             self.stmt(st)
+
+    def split_call(self, st):
+        """the call of `a, b = f(..)` / `return f(..)`: the two statement forms at which the analysis follows the
+        accepted and the rejected outcome of the callee separately"""
+        if isinstance(st, ast.Assign) and len(st.targets) == 1 and isinstance(st.targets[0], ast.Tuple) \
+                and len(st.targets[0].elts) == 2 and all(isinstance(x, ast.Name) for x in st.targets[0].elts) \
+                and isinstance(st.value, ast.Call):
+            return st.value
+        if isinstance(st, ast.Return) and isinstance(st.value, ast.Call):
+            return st.value
+        return None
+
+    def split_stmt(self, st, c, rest):
+        res = self.call(c)
+        is_ret = isinstance(st, ast.Return)
+
+        def do(tags, tag):
+            val = res.finish(tags)
+            if is_ret:
+                self.ret(val, tag)
+            else:
+                self.assign(st.targets[0], val)
+                if tag == 1:
+                    self.rej.add(st.targets[0].elts[1].id)
+        if 1 not in res.alts or not self.tr.reject_facts:
+            do(None, 0)
+            return False
+        self.fn.stats["calls_split_by_outcome"] += 1
+        saved = set(self.rej)
+        a = self.block(lambda: (do({0}, 0), None if is_ret else self.stmts(rest)))
+        self.rej = set(saved)
+        b = self.block(lambda: (do({1}, 1), None if is_ret else self.stmts(rest)))
+        self.rej = saved
+        self.emit(("If", a, b))
+        return True
+
+    def rejected_test(self, test):
+        """True / False when `test` is `is_rejected(x)` / `not is_rejected(x)` for an x known to hold a rejection"""
+        if not self.tr.reject_facts:
+            return None
+        neg = False
+        if isinstance(test, ast.UnaryOp) and isinstance(test.op, ast.Not):
+            neg, test = True, test.operand
+        if isinstance(test, ast.Call) and isinstance(test.func, ast.Name) and test.func.id == "is_rejected" \
+                and "is_rejected" not in self.names and len(test.args) == 1 and not test.keywords \
+                and isinstance(test.args[0], ast.Name) and test.args[0].id in self.rej:
+            imp = self.lookup_import("is_rejected")
+            if (imp and imp[0].endswith("component.util")) or self.mod.endswith("component.util"):
+                self.fn.stats["rejection_tests_resolved"] += 1
+                return not neg
+        return None
+
+    def return_tag(self, value):
+        """1 when the returned events certainly contain a rejection: `return X, [<provider>.rejected()]` or
+        `return X, ev` with ev known to hold one"""
+        if not self.tr.reject_facts or not (isinstance(value, ast.Tuple) and len(value.elts) == 2):
+            return 0
+        b = value.elts[1]
+        if isinstance(b, ast.Name) and b.id in self.rej:
+            return 1
+        if isinstance(b, ast.List) and len(b.elts) == 1 and isinstance(b.elts[0], ast.Call) \
+                and isinstance(b.elts[0].func, ast.Attribute) and b.elts[0].func.attr == "rejected" \
+                and not b.elts[0].args and not b.elts[0].keywords:
+            return 1
+        return 0
 
     def has_jump(self, st):
         if isinstance(st, (ast.Break, ast.Continue)):
@@ -797,7 +1030,7 @@ class FnTr:
                 return
             if isinstance(st.value, ast.Yield):
                 val = self.expr(st.value.value) if st.value.value is not None else self.fresh()
-                a = self.block(lambda: self.ret(val))
+                a = self.block(lambda: self.ret(val, 0))
                 self.emit(("If", a, []))
                 return
             self.expr(st.value)
@@ -814,28 +1047,38 @@ class FnTr:
         elif isinstance(st, ast.AugAssign):
             self.augassign(st)
         elif isinstance(st, ast.Return):
-            self.ret(self.expr(st.value, want_shape=True) if st.value is not None else self.fresh())
+            tag = self.return_tag(st.value)
+            self.ret(self.expr(st.value, want_shape=True) if st.value is not None else self.fresh(), tag)
         elif isinstance(st, ast.If):
+            rt = self.rejected_test(st.test)
+            if rt is not None:
+                self.stmts(st.body if rt else st.orelse)
+                return
             self.effects_of_test(st.test)
+            saved = set(self.rej)
             a = self.block(lambda: self.stmts(st.body))
+            self.rej = set(saved)
             b = self.block(lambda: self.stmts(st.orelse))
+            self.rej = saved - self.assigned_in(st)
             self.emit(("If", a, b))
         elif isinstance(st, ast.While):
             if st.orelse:
                 raise TranslatorError("while/else")
             # test, body, test, body, ..., test  =  Loop [test; body]; test   (a `continue` goes to the next test)
+            self.rej -= self.assigned_in(st)
             self.emit(("Loop", self.block(lambda: (self.effects_of_test(st.test), self.stmts(st.body)))))
             self.effects_of_test(st.test)
         elif isinstance(st, ast.For):
             if st.orelse:
                 raise TranslatorError("for/else")
+            self.rej -= self.assigned_in(st)
             self.for_loop(st.target, st.iter, lambda: self.stmts(st.body))
         elif isinstance(st, ast.Pass):
             pass
         elif isinstance(st, ast.Raise):
             if st.exc is not None:
                 self.expr(st.exc)
-            self.emit(("Return", []))
+            self.emit(("Return", [], 0))
         elif isinstance(st, ast.Assert):
             self.expr(st.test)
         elif isinstance(st, (ast.Import, ast.ImportFrom)):
@@ -846,15 +1089,18 @@ class FnTr:
         else:
             raise TranslatorError("unsupported statement %s at line %d" % (type(st).__name__, st.lineno))
 
+    def assigned_in(self, st):
+        return {n.id for n in ast.walk(st) if isinstance(n, ast.Name) and isinstance(n.ctx, (ast.Store, ast.Del))}
+
+
     def assign(self, target, val):
         if isinstance(target, ast.Name):
-            x = self.var(target.id)
             if val[0] in ("T", "L"):
-                self.emit(("Bind", x, ("New", self.flat(val))))
+                self.bind_name(target.id, ("New", self.flat(val)))
             elif val[0] == "v":
-                self.emit(("Bind", x, ("Alias", val[1])))
+                self.bind_name(target.id, ("Alias", val[1]))
             else:
-                self.emit(("Bind", x, val[1]))
+                self.bind_name(target.id, val[1])
         elif isinstance(target, (ast.Tuple, ast.List)):
             elts = target.elts
             if val[0] == "T" and len(val[1]) == len(elts) and not any(isinstance(e, ast.Starred) for e in elts):
@@ -906,25 +1152,29 @@ class FnTr:
             x = self.var(t.id)
             tx = self.type_of(t)
             if tx == "PRIM" or self.type_of(st.value) == "PRIM" and not isinstance(tx, (str, tuple)):
-                self.emit(("Bind", x, ("New", [])))      # numbers / strings: a re-binding to a new immutable value
+                self.bind_name(t.id, ("New", []))      # numbers / strings: a re-binding to a new immutable value
                 return
             name = BINOP_DUNDER.get(type(st.op))
             icands, typed = self.method_cands(t, "__i%s__" % name) if name else ([], False)
             if typed and isinstance(tx, str) and icands:
                 res = self.apply_summaries(icands, [("v", x), ("v", v)], {}, builtin=None, what="operator i" + name, is_method=True)
-                self.assign_var(x, res["val"] if res["val"][0] not in ("T", "L") else ("v", self.mat(res["val"])))
+                rv = res.finish()
+                self.assign(t, rv if rv[0] not in ("T", "L") else ("v", self.mat(rv)))
                 return
             if icands:
                 self.apply_summaries(icands, [("v", x), ("v", v)], {}, builtin=None, what="operator i" + name, is_method=True)
             # in place (list +=) or a re-binding (numbers, strings, tuples)
             self.emit(("If", [("Store", x, v)], [("Bind", x, ("New", [x, v]))]))
+            self.refresh_paths(t.id)
             self.fn.stats["augassign_name"] += 1
         elif isinstance(t, ast.Attribute):
             if isinstance(t.value, ast.Name) and t.value.id == "self" and self.src.component_like(self.fn.cls):
                 self.emit(("WriteSelf",))
                 return
             owner = self.mat(self.expr(t.value))
-            if not self.src.prim_attr(t.attr):
+            tt = self.type_of(t.value)
+            decl = self.src.field_ann(tt, t.attr) if isinstance(tt, str) and tt != "PRIM" else None
+            if not (is_prim_ann(decl) if decl is not None else self.src.prim_attr(t.attr)):
                 cur = self.new()
                 self.emit(("Bind", cur, ("From", [owner])))
                 self.emit(("Store", cur, v))          # the object held in the attribute may be modified in place
@@ -939,33 +1189,30 @@ class FnTr:
         else:
             raise TranslatorError("unsupported augmented assignment target")
 
-    def names_defined(self):
-        return self.names
-
     def for_loop(self, target, it, body_fn):
         gen = None
         if isinstance(it, ast.Call):
-            gen = self.call(it, for_header=True)
-            val = gen["val"]
+            gen = self.call(it)
+            val = gen.finish()
+            if not gen.gen:
+                gen = None
         else:
             val = self.expr(it, want_shape=True)
         if val[0] == "L":
-            elem = val[1]
-            # leaves must be variables bound before the loop
-            elem = self.freeze(elem)
+            elem = self.freeze(val[1])      # leaves must be variables bound before the loop
         elif val[0] == "T":
             elem = ("s", ("From", self.flat(val)))
         else:
             elem = ("s", ("From", [self.leaf_var(val)]))
 
         def body():
-            if gen and gen["mut"]:
-                self.emit(("Mut", gen["mut"]))
+            if gen:
+                gen.effects()               # a generator runs between the iterations
             self.assign(target, elem)
             body_fn()
         self.emit(("Loop", self.block(body)))
-        if gen and gen["mut"]:
-            self.emit(("Mut", gen["mut"]))
+        if gen:
+            gen.effects()
 
     def freeze(self, val):
         if val[0] == "T":
@@ -989,7 +1236,7 @@ class FnTr:
         if isinstance(e, ast.Attribute):
             return self.attribute(e)
         if isinstance(e, ast.Call):
-            return self.call(e)["val"]
+            return self.call(e).finish()
         if isinstance(e, ast.Tuple):
             vals = [self.expr(x, want_shape) for x in e.elts]
             if any(isinstance(x, ast.Starred) for x in e.elts):
@@ -1127,7 +1374,7 @@ class FnTr:
             res = self.apply_summaries(cands, [("v", self.join_var(lv)), ("v", self.join_var(rv))], {},
                                        builtin=None if (typed1 and isinstance(tl, str)) else ("New", lv + rv),
                                        what="operator " + name, is_method=True)
-            return res["val"]
+            return res.finish()
         return ("s", ("New", lv + rv))
 
     def join_var(self, vs):
@@ -1153,15 +1400,15 @@ class FnTr:
             recv = ("v", self.mat(base))
             res = self.apply_summaries(props, [recv], {}, builtin=None if typed else ("From", [recv[1]]),
                                        what="property " + e.attr, is_method=True)
-            return res["val"]
-        if declared is not None:
-            if is_prim_ann(declared):
-                self.fn.stats["primitive_attr_reads"] += 1
-                return self.fresh()
-            return ("s", ("From", self.flat(base)))
-        if self.src.prim_attr(e.attr) and not (typed and isinstance(t, str)):
+            return res.finish()
+        if declared is not None and is_prim_ann(declared):
             self.fn.stats["primitive_attr_reads"] += 1
             return self.fresh()
+        if declared is None and self.src.prim_attr(e.attr) and not (typed and isinstance(t, str)):
+            self.fn.stats["primitive_attr_reads"] += 1
+            return self.fresh()
+        if isinstance(e.value, ast.Name) and (e.value.id, e.attr) in self.paths and e.value.id in self.names:
+            return ("v", self.paths[(e.value.id, e.attr)])
         return ("s", ("From", self.flat(base)))
 
     def lookup_import(self, name):
@@ -1170,7 +1417,7 @@ class FnTr:
         return self.src.mod_imports.get(self.mod, {}).get(name)
 
     # ---- calls
-    def call(self, e, for_header=False):
+    def call(self, e):
         f = e.func
         args = list(e.args)
         kws = {k.arg: k.value for k in e.keywords if k.arg is not None}
@@ -1179,7 +1426,7 @@ class FnTr:
         if isinstance(f, ast.Name) and self.wrapper_of is not None and f.id == self.wrapper_of[0]:
             inner = self.wrapper_of[1]
             vals = [("v", v) for v in self.wrapper_of[2]]
-            return self.apply_summaries([inner], vals, {}, builtin=None, what="wrapped function", for_header=for_header)
+            return self.apply_summaries([inner], vals, {}, builtin=None, what="wrapped function")
         if star:
             vs = []
             for a in args:
@@ -1189,25 +1436,39 @@ class FnTr:
             if isinstance(f, ast.Attribute):
                 vs += self.flat(self.expr(f.value))
             self.emit(("Impure", "call with *args/**kwargs: " + ast.unparse(f)))
-            return {"val": ("s", ("From", vs + [G])), "mut": []}
+            return CallRes(self, direct=("s", ("From", vs + [G])))
         if isinstance(f, ast.Attribute):
             # module function?
             if isinstance(f.value, ast.Name) and f.value.id not in self.names:
                 imp = self.lookup_import(f.value.id)
                 if imp and imp[1] is None:
                     return self.module_call(imp[0], f.attr, args, kws)
+            # a method of an object that comes from a module outside simaple (logger.info, os.environ.get, np.random.rand):
+            # none of the analysed definitions of that name is the callee
+            root = f.value
+            while isinstance(root, (ast.Attribute, ast.Subscript, ast.Call)):
+                root = root.func if isinstance(root, ast.Call) else root.value
+            if isinstance(root, ast.Name) and root.id not in self.names:
+                imp = self.lookup_import(root.id)
+                if imp and not imp[0].startswith("simaple") and imp[0].split(".")[0] not in PURE_MODULES:
+                    for a in args + list(kws.values()):
+                        self.expr(a)
+                    self.emit(("Impure", "method of a foreign object: " + ast.unparse(f)))
+                    return CallRes(self, direct=("v", G))
             if isinstance(f.value, ast.Call) and isinstance(f.value.func, ast.Name) and f.value.func.id == "super":
                 recv = ("v", self.names.get("self", self.names.get("cls", G)))
             else:
                 recv = self.expr(f.value)
             recv = ("v", self.mat(recv))
+            if isinstance(f.value, ast.Name) and f.attr in M_SHALLOW_MUT:
+                self.rej.discard(f.value.id)
             argv = [self.expr(a) for a in args]
             kwv = {k: self.expr(v) for k, v in kws.items()}
             cands, typed = self.method_cands(f.value, f.attr)
             builtin = self.builtin_method(f.attr, recv[1], argv, kwv, e)
             if typed and cands and f.attr not in ("model_copy",):
                 builtin = None
-            return self.apply_summaries(cands, [recv] + argv, kwv, builtin=builtin, what="." + f.attr, for_header=for_header,
+            return self.apply_summaries(cands, [recv] + argv, kwv, builtin=builtin, what="." + f.attr,
                                         is_method=True)
         if isinstance(f, ast.Name):
             name = f.id
@@ -1217,38 +1478,40 @@ class FnTr:
             if name in self.names:
                 flat = [x for v in allv for x in self.flat(v)]
                 self.emit(("Impure", "call of a function value: " + name))
-                return {"val": ("s", ("From", flat + [G])), "mut": []}
+                return CallRes(self, direct=("s", ("From", flat + [G])))
             imp = self.lookup_import(name)
             if imp and imp[1] is not None and imp[0].split(".")[0] in IMPURE_MODULES:
                 self.emit(("Impure", "%s.%s" % imp))
-                return {"val": ("v", G), "mut": []}
+                return CallRes(self, direct=("v", G))
             if name in self.src.functions:
                 fns = self.src.functions[name]
                 same = [x for x in fns if x.mod == self.mod]
-                return self.apply_summaries(same or fns, argv, kwv, builtin=None, what=name, for_header=for_header)
+                return self.apply_summaries(same or fns, argv, kwv, builtin=None, what=name)
             if name in self.src.classes or (name[:1].isupper() and (imp or name in self.src.mod_globals.get(self.mod, ()))) \
                     or name in ("ValueError", "KeyError", "TypeError", "NotImplementedError", "IndexError", "RuntimeError",
                                 "AssertionError", "Exception", "StopIteration"):
                 self.fn.stats["constructors"] += 1
-                return {"val": ("s", ("New", [x for v in allv for x in self.flat(v)])), "mut": []}
+                return CallRes(self, direct=("s", ("New", [x for v in allv for x in self.flat(v)])))
             if name == "cast" and len(argv) == 2:
-                return {"val": argv[1], "mut": []}
+                return CallRes(self, direct=argv[1])
             if name == "super":
-                return {"val": ("v", self.names.get("self", G)), "mut": []}
+                return CallRes(self, direct=("v", self.names.get("self", G)))
+            if name in BI_GLOBAL:
+                return CallRes(self, direct=("v", G))
             if name in BI_FRESH:
-                return {"val": self.fresh(), "mut": []}
+                return CallRes(self, direct=self.fresh())
             if name in BI_FROM:
-                return {"val": ("s", ("From", [x for v in allv for x in self.flat(v)])), "mut": []}
+                return CallRes(self, direct=("s", ("From", [x for v in allv for x in self.flat(v)])))
             if name in BI_NEW:
-                return {"val": ("s", ("New", [x for v in allv for x in self.flat(v)])), "mut": []}
+                return CallRes(self, direct=("s", ("New", [x for v in allv for x in self.flat(v)])))
             self.emit(("Impure", "unknown function " + name))
-            return {"val": ("v", G), "mut": []}
+            return CallRes(self, direct=("v", G))
         # anything else: a call of a computed callee
         self.expr(f)
         for a in args:
             self.expr(a)
         self.emit(("Impure", "call of a computed function: " + ast.unparse(f)))
-        return {"val": ("v", G), "mut": []}
+        return CallRes(self, direct=("v", G))
 
     def module_call(self, module, attr, args, kws):
         vs = []
@@ -1256,15 +1519,15 @@ class FnTr:
             vs += self.flat(self.expr(a))
         top = module.split(".")[0]
         if top == "copy" and attr == "deepcopy":
-            return {"val": self.fresh(), "mut": []}
+            return CallRes(self, direct=self.fresh())
         if top == "copy" and attr == "copy":
-            return {"val": ("s", ("New", vs)), "mut": []}
+            return CallRes(self, direct=("s", ("New", vs)))
         if top == "math":
-            return {"val": self.fresh(), "mut": []}
+            return CallRes(self, direct=self.fresh())
         if top in PURE_MODULES:
-            return {"val": ("s", ("New", vs)), "mut": []}
+            return CallRes(self, direct=("s", ("New", vs)))
         self.emit(("Impure", "%s.%s" % (module, attr)))
-        return {"val": ("v", G), "mut": []}
+        return CallRes(self, direct=("v", G))
 
     def builtin_method(self, name, recv, argv, kwv, e):
         """built-in meaning of a method name, or None: ('New'|'From', vars) for the result plus ('store', vars) effects"""
@@ -1313,8 +1576,10 @@ class FnTr:
             return None
         return m
 
-    def apply_summaries(self, cands, vals, kwv, builtin, what, for_header=False, is_method=False):
-        """desugar a call with the join of the candidate summaries (+ the built-in meaning)"""
+    def apply_summaries(self, cands, vals, kwv, builtin, what, is_method=False):
+        """desugar a call with the join of the candidate summaries (+ the built-in meaning); effects are emitted here,
+        the result is bound by CallRes.finish"""
+        res = CallRes(self)
         fitting = []
         for fn in cands:
             m = self.bind_args(fn, vals, kwv, is_method)
@@ -1326,18 +1591,18 @@ class FnTr:
             vs = [x for v in allvals for x in self.flat(v)]
             self.fn.stats["unknown_calls"] += 1
             self.tr.unknown.add(what)
-            self.emit(("Mut", vs))
-            return {"val": ("s", ("From", vs)), "mut": vs}
-        mut, unsafe, gen = [], None, False
-        shape, leafsrc = None, None
-        results = []   # (shape, [sources per leaf or None])
+            res.mut = vs
+            res.results.append(("leaf", {0: [list(vs)]}))
+            res.effects()
+            return res
+        unsafe = None
         for fn, m in fitting:
             if fn in self.tr.in_progress:
                 # a (possibly spurious, name-based) recursive call: by induction on the call depth it does no more than
                 # mutate its arguments and return something reachable from them or from the globals
                 self.fn.stats["recursive_call_sites"] += 1
-                mut += [x for v in allvals for x in self.flat(v)]
-                results.append(("leaf", [None]))
+                res.mut += [x for v in allvals for x in self.flat(v)]
+                res.results.append(("leaf", {0: [None]}))
                 continue
             sm = self.tr.summary(fn)
             self.fn.stats["call_sites_with_summary"] += 1
@@ -1346,79 +1611,45 @@ class FnTr:
                 unsafe = fn.key
                 continue
             pv = {p: i for i, p in enumerate(fn.param_vars)}
-            def caller_vars(ps):
+
+            def cv(ps, m=m, pv=pv):
                 out = []
                 for p in ps:
                     i = pv[p]
                     if i in m:
                         out += self.flat(m[i])
                 return out
-            mut += caller_vars(sm["mut"])
-            results.append((fn.shape, [None if r is None else caller_vars(r) for r in sm["rets"]]))
-            gen = gen or fn.is_gen
+            res.mut += cv(sm["mut"])
+            for p in sm["top"]:
+                srcs = cv([q for q in sm["mut"] + sm["top"] + sm["src"] if q != p])
+                for tv in cv([p]):
+                    res.stores += [(tv, sv, False) for sv in srcs] or [(tv, None, False)]
+            for p in sm["mut"]:
+                for tv in cv([p]):
+                    res.stores += [(tv, sv, True) for sv in cv(sm["src"])]
+            res.results.append((fn.shape, {t: [None if r is None else cv(r) for r in rets] for t, rets in sm["rets"].items()}))
+            res.gen = res.gen or fn.is_gen
         if unsafe:
             self.emit(("Impure", "call of %s, which has no justified summary" % unsafe))
-            return {"val": ("v", G), "mut": []}
-        bres = None
+            res.direct = ("v", G)
+            return res
         if builtin is not None:
             kind, vs = builtin
             recv = self.flat(vals[0])[0]
             if kind == "StoreInto":
-                for v in vs:
-                    self.emit(("Store", recv, v))
-                bres = ("leaf", [[]])
+                res.stores += [(recv, v, False) for v in vs] or [(recv, None, False)]
+                res.results.append(("leaf", {0: [[]]}))
             elif kind == "ShallowMut":
-                t = self.new()
-                self.emit(("Bind", t, ("New", [])))
-                self.emit(("Store", recv, t))
-                bres = ("leaf", [[recv]])
-            elif kind == "New" and not results:
-                return {"val": ("s", ("New", vs)), "mut": []}
+                res.stores.append((recv, None, False))
+                res.results.append(("leaf", {0: [[recv]]}))
+            elif kind == "New" and not res.results:
+                res.direct = ("s", ("New", vs))
+                return res
             else:
-                bres = ("leaf", [list(vs)])
-        mut = list(dict.fromkeys(mut))
-        if mut:
-            self.emit(("Mut", mut))
-        if bres is not None:
-            results.append(bres)
-        # join the results
-        sh = None
-        for s, _ in results:
-            sh = join_shape(sh, s)
-        if for_header and sh is not None and sh != "leaf" and sh[0] == "L":
-            pass
-        nl = n_leaves(sh)
-        srcs = [[] for _ in range(nl)]
-        unknown = [False] * nl
-        for s, rs in results:
-            if n_leaves(s) == nl and self.same_layout(s, sh):
-                for k, r in enumerate(rs):
-                    if r is None:
-                        unknown[k] = True
-                    else:
-                        srcs[k] += r
-            else:   # collapsed: every leaf of this result may flow into every leaf
-                for k in range(nl):
-                    for r in rs:
-                        if r is None:
-                            unknown[k] = True
-                        else:
-                            srcs[k] += r
-        leaves = []
-        prev = []
-        single_fresh = (nl == 1 and not mut and not srcs[0] and not unknown[0])
-        for k in range(nl):
-            if single_fresh:
-                leaves.append(("s", ("New", [])))
-                break
-            t = self.new()
-            s = list(dict.fromkeys(mut + srcs[k] + prev + ([G] if unknown[k] else [])))
-            self.emit(("Bind", t, ("From", s)))
-            leaves.append(("v", t))
-            prev.append(t)
-        it = iter(leaves)
-        val = self.build(sh, it)
-        return {"val": val, "mut": mut if gen else []}
+                res.results.append(("leaf", {0: [list(vs)]}))
+        res.effects()
+        res.alts = {t for _, by in res.results for t in by}
+        return res
 
     def same_layout(self, a, b):
         if a == "leaf" or b == "leaf":
@@ -1447,6 +1678,7 @@ class Translator:
         self.called = set()
         self.errors = {}
         self.order = []        # callees in bottom-up order
+        self.reject_facts = self.verify_reject_facts()
 
     def translate(self, fn: Fn):
         if fn.skel is not None or fn.error is not None:
@@ -1506,7 +1738,7 @@ class Translator:
         for p in fn.all_params():
             t.var(p)
         t.wrapper_of = (d.args.args[0].arg, inner, [t.names[p] for p in fn.all_params()])
-        t.run_wrapper()
+        t.run(declare=False)
         fn.param_vars = t.param_vars
 
     def summary(self, fn: Fn):
@@ -1514,60 +1746,85 @@ class Translator:
             return fn.summary
         self.translate(fn)
         if fn.error:
-            fn.summary = {"ok": False, "mut": [], "rets": []}
+            fn.summary = {"ok": False}
             return fn.summary
         params = [v for p, v in zip(fn.all_params(), fn.param_vars) if not is_prim_ann(fn.ann.get(p))]
         nl = n_leaves(fn.shape if not fn.is_gen else fn.shape[1])
+        sk = fn.skel
         found = None
-        for k in range(len(params) + 1):
-            for m in itertools.combinations(params, k):
-                if check_from(ret_pinned(m), m, m, fn.skel):
-                    found = list(m)
+        for km in range(len(params) + 1):
+            for m in itertools.combinations(params, km):
+                rest = [p for p in params if p not in m]
+                for kt in range(len(rest) + 1):
+                    for t in itertools.combinations(rest, kt):
+                        if not effects_ok(sk, m, t):
+                            continue
+                        rest2 = [p for p in rest if p not in t]
+                        for kj in range(len(rest2) + 1):
+                            for j in itertools.combinations(rest2, kj):
+                                if sources_ok(sk, m, t, j):
+                                    found = (list(m), list(t), list(j))
+                                    break
+                            if found:
+                                break
+                        if found:
+                            break
+                    if found:
+                        break
+                if found:
                     break
-            if found is not None:
+            if found:
                 break
         if found is None:
-            fn.summary = {"ok": False, "mut": [], "rets": []}
+            fn.summary = {"ok": False}
             try:
-                Checker(ret_pinned(params), params).checks(fn.skel, (tuple(params), tuple(params), ()))
-                fn.unsafe_reason = "no parameter set works"
+                Checker(ret_deep(params), params).checks(sk, (tuple(params), tuple(params), ()))
+                fn.unsafe_reason = "no assignment of roles to the parameters is justified"
             except Reject as r:
                 fn.unsafe_reason = "%s  [%s]" % (r.why, show_stmt(r.stmt))
         else:
-            rest = [p for p in params if p not in found]
-            rets = []
-            for leaf in range(nl):
-                got = None
-                for k in range(len(rest) + 1):
-                    for s in itertools.combinations(rest, k):
-                        if check_from(ret_leaf(found, leaf), found, found + list(s), fn.skel):
-                            got = list(s)
+            m, t, j = found
+            cand = [p for p in params if p not in m]
+            rets = {}
+            for tag in fn.tags:
+                skt = variant(sk, tag)
+                rets[tag] = []
+                for leaf in range(nl):
+                    got = None
+                    for k in range(len(cand) + 1):
+                        for s_ in itertools.combinations(cand, k):
+                            if leaf_ok(skt, m, t, leaf, s_):
+                                got = list(s_)
+                                break
+                        if got is not None:
                             break
-                    if got is not None:
-                        break
-                rets.append(got)
-            fn.summary = {"ok": True, "mut": found, "rets": rets}
+                    rets[tag].append(got)
+            fn.summary = {"ok": True, "mut": m, "top": t, "src": j, "rets": rets}
         self.order.append(fn)
         return fn.summary
 
-
-def _run_wrapper(self):
-    """FnTr.run for a decorator's wrapper body: parameters are already declared"""
-    fn = self.fn
-    self.param_vars = [self.names[p] for p in fn.all_params()]
-    self.prepass_types()
-    self.stmts(self.body)
-    if not ends(self.body):
-        self.ret(self.fresh())
-    skel = self.blocks[0]
-    sh = None
-    for ph in self.returns:
-        sh = join_shape(sh, shape_of(ph["val"]))
-    self.finish_returns(skel, sh)
-    fn.skel, fn.shape, fn.nvars = skel, sh, self.nvars
-
-
-FnTr.run_wrapper = _run_wrapper
+    def verify_reject_facts(self):
+        """the two source facts behind the accepted/rejected case split: every `rejected()` builds an event tagged
+        Tag.REJECT, and `is_rejected(events)` is `any(event["tag"] == Tag.REJECT for event in events)`"""
+        src = self.src
+        fs = src.functions.get("is_rejected", [])
+        ms = [m for m in src.methods.get("rejected", []) if not src.is_stub(m)]
+        if len(fs) != 1 or not ms:
+            return False
+        f = fs[0]
+        body = [n for n in f.node.body if not (isinstance(n, ast.Expr) and isinstance(n.value, ast.Constant))]
+        want = ast.parse("return any(event['tag'] == Tag.REJECT for event in %s)" % (f.params[0] if f.params else "events")).body[0]
+        if len(body) != 1 or ast.dump(body[0]) != ast.dump(want):
+            return False
+        for m in ms:
+            body = [n for n in m.node.body if not (isinstance(n, ast.Expr) and isinstance(n.value, ast.Constant))]
+            if len(body) != 1 or not isinstance(body[0], ast.Return) or not isinstance(body[0].value, ast.Dict):
+                return False
+            d = body[0].value
+            tags = [ast.unparse(v) for k, v in zip(d.keys, d.values) if isinstance(k, ast.Constant) and k.value == "tag"]
+            if tags != ["Tag.REJECT"]:
+                return False
+        return True
 
 
 # ============================================================================ Coq output
@@ -1627,7 +1884,7 @@ def count_stmts(l, c):
 ROOT_DIRS = ("simulate.component.common", "simulate.component.specific", "simulate.component.skill")
 
 
-def analyse(repo, extra=None):
+def analyse(repo):
     """Translate everything; returns (translator, reducers, views, callees)."""
     tr = Translator(repo)
     roots = [f for f in tr.src.fns if f.kind in ("reducer", "view") and f.mod.startswith(ROOT_DIRS)]
@@ -1647,9 +1904,179 @@ def analyse(repo, extra=None):
     return tr, reducers, views
 
 
+# unit examples: (name, class, method, replacement source, accepted?).  The first one is the body
+# FullMetalBarrageComponent.elapse had before /repo commit 5af86b7.
+EXAMPLES = [
+    ("fullmetalbarrage_elapse_prerepair", "FullMetalBarrageComponent", "elapse", False, """
+def elapse(self, time: float, state: FullMetalBarrageState):
+    state.penalty_lasting.elapse(time)
+    state, event = self.elapse_keydown_trait(time, state)
+
+    if is_keydown_ended(event):
+        state.penalty_lasting.set_time_left(self.homing_penalty_duration)
+
+    return state, event
+"""),
+    ("no_copy", "AttackSkillComponent", "reset_cooldown", False, """
+def reset_cooldown(self, _: None, state: AttackSkillState):
+    state.cooldown.set_time_left(0)
+    return state, None
+"""),
+    ("copy_after_mutation", "TriggableBuffSkillComponent", "elapse", False, """
+def elapse(self, time: float, state: TriggableBuffState):
+    state.cooldown.elapse(time)
+    state = state.deepcopy()
+    state.lasting.elapse(time)
+    state.trigger_cooldown.elapse(time)
+    return state, [self.event_provider.elapsed(time)]
+"""),
+    ("append_to_input_list", "ChainLightningVIComponent", "use", False, """
+def use(self, _: None, state: ChainLightningVISkillState):
+    state.current_fields.field_periodics.append(Periodic(interval=1.0))
+    state = state.deepcopy()
+    return state, []
+"""),
+    ("view_mutates", "BuffSkillComponent", "buff", False, """
+def buff(self, state: BuffSkillState):
+    state.lasting.elapse(0)
+    if state.lasting.enabled():
+        return self.stat
+    return None
+"""),
+    ("trait_caches_on_self", "BuffTrait", "running_in_buff_trait", False, """
+def running_in_buff_trait(self, state: LastingProtocol) -> Running:
+    self._cache = state.lasting.time_left
+    return Running(id=self._get_id(), name=self._get_name(), time_left=state.lasting.time_left,
+                   lasting_duration=state.lasting.assigned_duration)
+"""),
+    ("uses_random", "MultipleHitHexaSkillComponent", "elapse", False, """
+def elapse(self, time: float, state: MultipleHitHexaSkillState):
+    import random
+    state = state.deepcopy()
+    state.cooldown.elapse(time * random.random())
+    return state, [self.event_provider.elapsed(time)]
+"""),
+    ("borrowed_entity_stored_then_mutated", "MultipleHitHexaSkillComponent", "elapse", False, """
+def elapse(self, time: float, state: MultipleHitHexaSkillState):
+    new_state = state.deepcopy()
+    new_state.cooldown = state.cooldown
+    new_state.cooldown.elapse(time)
+    return new_state, [self.event_provider.elapsed(time)]
+"""),
+    ("alias_of_input", "MultipleHitHexaSkillComponent", "elapse", False, """
+def elapse(self, time: float, state: MultipleHitHexaSkillState):
+    s = state
+    s.cooldown.elapse(time)
+    return s, [self.event_provider.elapsed(time)]
+"""),
+    ("iadd_on_component_stat", "BuffSkillComponent", "buff", False, """
+def buff(self, state: BuffSkillState):
+    stat = self.stat
+    stat += Stat(attack_power=1)
+    return stat
+"""),
+    ("shallow_copy_then_deep_mutation", "MultipleHitHexaSkillComponent", "elapse", False, """
+def elapse(self, time: float, state: MultipleHitHexaSkillState):
+    state = state.model_copy()
+    state.cooldown.elapse(time)
+    return state, [self.event_provider.elapsed(time)]
+"""),
+    ("mutation_on_rejected_path", "AdeleStormComponent", "use", False, """
+def use(self, _: None, state: AdeleStormState):
+    sword_count = state.order_sword.get_sword_count()
+    state, events = self.use_periodic_damage_trait(state)
+    if is_rejected(events):
+        state.stack.reset(sword_count)
+    return state, events
+"""),
+    ("attribute_store_on_input_entity", "MultipleHitHexaSkillComponent", "elapse", False, """
+def elapse(self, time: float, state: MultipleHitHexaSkillState):
+    state.cooldown.time_left = 0.0
+    return state.deepcopy(), [self.event_provider.elapsed(time)]
+"""),
+    ("input_entity_through_a_list", "MultipleHitHexaSkillComponent", "elapse", False, """
+def elapse(self, time: float, state: MultipleHitHexaSkillState):
+    entities = [state.cooldown]
+    entities[0].elapse(time)
+    return state.deepcopy(), [self.event_provider.elapsed(time)]
+"""),
+    ("input_entities_in_a_loop", "TriggableBuffSkillComponent", "elapse", False, """
+def elapse(self, time: float, state: TriggableBuffState):
+    for e in (state.cooldown, state.trigger_cooldown):
+        e.elapse(time)
+    return state.deepcopy(), [self.event_provider.elapsed(time)]
+"""),
+    ("class_attribute_counter", "MultipleHitHexaSkillComponent", "elapse", False, """
+def elapse(self, time: float, state: MultipleHitHexaSkillState):
+    type(self).calls = 1
+    state = state.deepcopy()
+    state.cooldown.elapse(time)
+    return state, [self.event_provider.elapsed(time)]
+"""),
+    ("logging", "MultipleHitHexaSkillComponent", "elapse", False, """
+def elapse(self, time: float, state: MultipleHitHexaSkillState):
+    from loguru import logger
+    logger.info("elapse")
+    state = state.deepcopy()
+    state.cooldown.elapse(time)
+    return state, [self.event_provider.elapsed(time)]
+"""),
+    ("shared_dynamics_modified", "MultipleHitHexaSkillComponent", "use", False, """
+def use(self, _: None, state: MultipleHitHexaSkillState):
+    state = state.deepcopy()
+    self.modifier.attack_power += 1
+    return state, []
+"""),
+    ("guard_first", "MultipleHitHexaSkillComponent", "elapse", True, """
+def elapse(self, time: float, state: MultipleHitHexaSkillState):
+    if time <= 0:
+        return state, []
+    state = state.deepcopy()
+    state.cooldown.elapse(time)
+    return state, [self.event_provider.elapsed(time)]
+"""),
+    ("borrowed_values_collected_in_a_local_list", "MultipleHitHexaSkillComponent", "elapse", True, """
+def elapse(self, time: float, state: MultipleHitHexaSkillState):
+    state = state.deepcopy()
+    seen = []
+    for entry in self.damage_and_hits:
+        seen.append(entry)
+        state.cooldown.elapse(time)
+    return state, [self.event_provider.elapsed(time)]
+"""),
+    ("deep_model_copy", "MultipleHitHexaSkillComponent", "elapse", True, """
+def elapse(self, time: float, state: MultipleHitHexaSkillState):
+    state = state.model_copy(deep=True)
+    state.cooldown.elapse(time)
+    return state, [self.event_provider.elapsed(time)]
+"""),
+]
+
+
+def examples(repo):
+    out = []
+    for name, cls, meth, accepted, text in EXAMPLES:
+        nf, _tr = translate_variant(repo, cls, meth, text.strip() + "\n")
+        ok, why = safe(nf.skel)
+        out.append({"name": name, "class": cls, "method": meth, "expected_accepted": accepted, "accepted": ok,
+                    "why": why, "skel": nf.skel, "error": nf.error})
+    return out
+
+
 def gen(repo):
     tr, reducers, views = analyse(repo)
-    return emit(tr, reducers, views)
+    return emit(tr, reducers, views, examples(repo))
+
+
+def summary_items(f):
+    """[(suffix, skeleton, summary dict)] -- one per return class of the callee"""
+    sm = f.summary
+    out = []
+    for tag in f.tags:
+        suffix = "" if len(f.tags) == 1 else "_r%d" % tag
+        out.append((suffix, f.skel if len(f.tags) == 1 else variant(f.skel, tag),
+                    {"mut": sm["mut"], "top": sm["top"], "src": sm["src"], "rets": sm["rets"][tag]}))
+    return out
 
 
 def emit(tr, reducers, views, examples=()):
@@ -1657,33 +2084,50 @@ def emit(tr, reducers, views, examples=()):
            "From Coq Require Import List.", "Import ListNotations.", "From V.Model Require Import Effects.", ""]
     done = set()
 
+    def head(fn):
+        return "(* %s  [%s:%d]  parameters %s *)" % (fn.key, fn.mod, fn.node.lineno,
+                                                      ", ".join("%s=%d" % (p, v) for p, v in zip(fn.all_params(), fn.param_vars)))
+
     def put(fn):
         if fn.key in done:
             return
         done.add(fn.key)
-        out.append("(* %s  [%s:%d]  parameters %s *)" % (fn.key, fn.mod, fn.node.lineno,
-                                                         ", ".join("%s=%d" % (p, v) for p, v in zip(fn.all_params(), fn.param_vars))))
+        out.append(head(fn))
         out.append("Definition sk_%s : list stmt :=\n%s." % (ident(fn.key), coq_block(fn.skel, 1)))
     callees = [f for f in tr.order]
+    pairs = []
     for f in callees:
-        put(f)
-        sm = f.summary
-        if sm["ok"]:
+        if not f.summary["ok"]:
+            put(f)
+            continue
+        for suffix, skel, sm in summary_items(f):
+            if suffix == "":
+                put(f)
+            else:
+                out.append(head(f) + " (* return class %s: the other returns claim nothing *)" % suffix[2:])
+                out.append("Definition sk_%s%s : list stmt :=\n%s." % (ident(f.key), suffix, coq_block(skel, 1)))
             rets = coq_list("None" if r is None else "Some " + coq_list(str(v) for v in r) for r in sm["rets"])
-            out.append("Definition sm_%s : summary := {| s_mut := %s; s_rets := %s |}." % (
-                ident(f.key), coq_list(str(v) for v in sm["mut"]), rets))
+            out.append("Definition sm_%s%s : summary := {| s_mut := %s; s_top := %s; s_src := %s; s_rets := %s |}." % (
+                ident(f.key), suffix, coq_list(str(v) for v in sm["mut"]), coq_list(str(v) for v in sm["top"]),
+                coq_list(str(v) for v in sm["src"]), rets))
+            pairs.append("(sk_%s%s, sm_%s%s)" % (ident(f.key), suffix, ident(f.key), suffix))
     for f in reducers + views:
         put(f)
-    for name, skel in examples:
-        out.append("Definition ex_%s : list stmt :=\n%s." % (name, coq_block(skel, 1)))
+    for ex in examples:
+        out.append("(* unit example %s: %s.%s replaced; expected to be %s *)" % (
+            ex["name"], ex["class"], ex["method"], "accepted" if ex["expected_accepted"] else "REJECTED"))
+        out.append("Definition ex_%s : list stmt :=\n%s." % (ex["name"], coq_block(ex["skel"], 1)))
+    out.append("Definition bad_examples : list (list stmt) :=\n " + coq_list("ex_" + ex["name"] for ex in examples if not ex["expected_accepted"]) + ".")
+    out.append("Definition good_examples : list (list stmt) :=\n " + coq_list("ex_" + ex["name"] for ex in examples if ex["expected_accepted"]) + ".")
     out.append("")
     out.append("Definition all_reducers : list (list stmt) :=\n " + coq_list("sk_" + ident(f.key) for f in reducers) + ".")
     out.append("Definition all_views : list (list stmt) :=\n " + coq_list("sk_" + ident(f.key) for f in views) + ".")
-    out.append("Definition all_summaries : list (list stmt * summary) :=\n " + coq_list(
-        "(sk_%s, sm_%s)" % (ident(f.key), ident(f.key)) for f in callees if f.summary["ok"]) + ".")
+    out.append("Definition all_summaries : list (list stmt * summary) :=\n " + coq_list(pairs) + ".")
     out.append("Definition n_reducers := %d.\nDefinition n_views := %d.\nDefinition n_summaries := %d." % (
-        len(reducers), len(views), len([f for f in callees if f.summary["ok"]])))
+        len(reducers), len(views), len(pairs)))
     meta = metadata(tr, reducers, views, callees)
+    meta["n_summary_obligations"] = len(pairs)
+    meta["examples"] = [{k: v for k, v in ex.items() if k != "skel"} for ex in examples]
     return {"Effects_skeletons.v": "\n".join(out) + "\n"}, meta
 
 
@@ -1694,55 +2138,72 @@ def metadata(tr, reducers, views, callees):
         ok, why = safe(f.skel, tally)
         if not ok:
             rejected[f.key] = why
+    unjustified = []
     for f in callees:
         if f.summary["ok"]:
-            Checker(ret_pinned(f.summary["mut"]), f.summary["mut"], tally).checks(
-                f.skel, (tuple(f.summary["mut"]),) * 2 + ((),))
+            sm = f.summary
+            check_from(ret_deep(sm["mut"]), sm["mut"] + sm["top"], sm["mut"], sm["top"], f.skel, tally)
+            for suffix, skel, one in summary_items(f):
+                if not justified(skel, one["mut"], one["top"], one["src"], one["rets"]):
+                    unjustified.append(f.key + suffix)
     c = Counter()
     for f in reducers + views + callees:
         count_stmts(f.skel, c)
     stats = Counter()
     for f in reducers + views + callees:
         stats.update(f.stats)
+
+    def names(f, vs):
+        return [f.all_params()[f.param_vars.index(v)] for v in vs]
     return {
         "files_read": [str(p.relative_to(tr.src.root.parent)) for p in tr.src.files],
         "reducers": len(reducers), "views": len(views),
         "classes_with_reducers_or_views": len({f.cls for f in reducers + views}),
         "callees_summarised": len([f for f in callees if f.summary["ok"]]),
         "callees_without_summary": {f.key: getattr(f, "unsafe_reason", f.error) for f in callees if not f.summary["ok"]},
-        "mutating_callees": {f.key: [f.all_params()[f.param_vars.index(v)] for v in f.summary["mut"]]
-                             for f in callees if f.summary["ok"] and f.summary["mut"]},
+        "deeply_mutating_callees": {f.key: names(f, f.summary["mut"]) for f in callees if f.summary["ok"] and f.summary["mut"]},
+        "top_level_mutating_callees": {f.key: {"modifies": names(f, f.summary["top"]), "may store": names(f, f.summary["src"])}
+                                       for f in callees if f.summary["ok"] and f.summary["top"]},
+        "callees_with_a_rejected_return_class": [f.key for f in callees if len(f.tags) > 1],
+        "summaries_not_justified_by_python_mirror": unjustified,
         "translator_errors": dict(tr.errors),
         "unknown_method_names": sorted(tr.unknown),
         "rejected_by_python_mirror": rejected,
-        "classification": {"Mutate-after-Fresh": len(tally.get("mutate_after_fresh", ())),
-                           "Store-into-fresh": len(tally.get("store_into_fresh", ())),
+        "reject_facts_verified": tr.reject_facts,
+        "classification": {"Mutate-after-Fresh": len(tally.get("mutate_after_fresh", ())) + len(tally.get("store_into_fresh", ())),
+                           "  of which deep mutations (Mut)": len(tally.get("mutate_after_fresh", ())),
+                           "  of which stores into a fresh object (Store)": len(tally.get("store_into_fresh", ())),
                            "Borrowed-read": len(tally.get("borrowed_read", ())),
                            "Fresh-read": len(tally.get("fresh_read", ())),
                            "call sites desugared with a summary": stats["call_sites_with_summary"],
+                           "calls followed separately for the accepted / rejected outcome": stats["calls_split_by_outcome"],
+                           "is_rejected tests resolved on the rejected path": stats["rejection_tests_resolved"],
                            "constructor calls": stats["constructors"],
                            "primitive attribute reads": stats["primitive_attr_reads"],
                            "primitive parameters": stats["primitive_params"],
+                           "reads of never-assigned fields done once at binding time": stats["cached_field_reads"],
+                           "name-recursive call sites": stats["recursive_call_sites"],
                            "unknown calls (receiver and arguments mutated)": stats["unknown_calls"]},
         "statements": dict(c),
         "primitive_attributes": len([a for a in tr.src.attr_decl if tr.src.prim_attr(a)]),
+        "never_assigned_field_caching": not tr.src.reflection,
         "reducer_keys": [f.key for f in reducers], "view_keys": [f.key for f in views],
     }
 
 
-def translate_variant(repo, module_rel, class_name, method_name, new_method_src):
+def translate_variant(repo, class_name, method_name, new_method_src):
     """Skeleton of `class_name.method_name` with its source replaced by `new_method_src` (unit examples)."""
     tr = Translator(repo)
-    mod, c = tr.src.classes[class_name]
     new = ast.parse(new_method_src).body[0]
-    for f in tr.src.fns:
-        if f.key == "%s.%s" % (class_name, method_name):
-            nf = Fn(f.key, new, f.cls, f.mod, f.kind)
-            tr.src.fns[tr.src.fns.index(f)] = nf
-            tab = tr.src.methods[method_name]
-            tab[tab.index(f)] = nf
-            tr.translate(nf)
-            return nf, tr
+    for table in (tr.src.methods, tr.src.properties):
+        for f in table.get(method_name, []):
+            if f.cls == class_name:
+                new.decorator_list = f.node.decorator_list
+                nf = Fn(f.key, new, f.cls, f.mod, f.kind)
+                tr.src.fns[tr.src.fns.index(f)] = nf
+                table[method_name][table[method_name].index(f)] = nf
+                tr.translate(nf)
+                return nf, tr
     raise KeyError(class_name + "." + method_name)
 
 
